@@ -20,6 +20,7 @@ type State struct {
 	Alloc *smt.Term
 	Defer map[*ssa.Defer]*deferRec
 	Ghost map[string]*smt.Term
+	Splits []*smt.Term // atoms of the branch conditions whose branches were merged into this state
 	Epoch int // >0: some heap havoc happened; unseen heaps are not the entry heaps
 	OldCur   *State    // old()-evaluation: cells allocated after OldAlloc are read from this (current) state
 	OldAlloc *smt.Term
@@ -33,7 +34,7 @@ type deferRec struct {
 }
 
 func (s *State) Clone() *State {
-	n := &State{Reach: s.Reach, Path: s.Path, Alloc: s.Alloc, Epoch: s.Epoch, OldCur: s.OldCur, OldAlloc: s.OldAlloc,
+	n := &State{Reach: s.Reach, Path: s.Path, Splits: s.Splits, Alloc: s.Alloc, Epoch: s.Epoch, OldCur: s.OldCur, OldAlloc: s.OldAlloc,
 		Heaps: make(map[string]*smt.Term, len(s.Heaps)),
 		Cells: make(map[*ssa.Alloc]*smt.Term, len(s.Cells)),
 		Ghost: make(map[string]*smt.Term, len(s.Ghost))}
@@ -340,6 +341,37 @@ func (e *Exec) merge(ss []*State) *State {
 	out.Path = smt.Or(ps...)
 	// selector conditions: branch conditions only, common prefix stripped
 	conds := stripCommon(ps)
+	{
+		seen := map[int]bool{}
+		var sp []*smt.Term
+		add := func(t *smt.Term) {
+			if t.Op == "not" {
+				t = t.Args[0]
+			}
+			if t.Op == "true" || t.Op == "false" || seen[t.ID] || t.HasBound {
+				return
+			}
+			seen[t.ID] = true
+			sp = append(sp, t)
+		}
+		for _, s := range live {
+			for _, t := range s.Splits {
+				add(t)
+			}
+		}
+		if e.spec == 0 {
+			for _, c := range conds {
+				if c.Op == "and" {
+					for _, a := range c.Args {
+						add(a)
+					}
+				} else {
+					add(c)
+				}
+			}
+		}
+		out.Splits = sp
+	}
 	pick := func(get func(s *State) *smt.Term) *smt.Term {
 		v := get(live[len(live)-1])
 		for i := len(live) - 2; i >= 0; i-- {
@@ -785,7 +817,7 @@ func (e *Exec) checkPerReturn(st *State, kind string, goal *smt.Term, label stri
 		if hyp.IsFalse() || g.IsTrue() {
 			continue
 		}
-		name := fmt.Sprintf("%s/%s:%s@ret%d", e.curFunc, kind, label, i+1)
+		name := fmt.Sprintf("%s/%s:%s@path%d", e.curFunc, kind, label, i+1)
 		o := &Obligation{Name: name, Kind: kind, Func: e.curFunc, Hyp: hyp, Goal: g,
 			Values: e.inputs, ValueNames: e.inputNames, Props: e.curProps}
 		e.Obls = append(e.Obls, o)
@@ -807,5 +839,114 @@ func (e *Exec) assumeAllocated(st *State, v *smt.Term, t types.Type) {
 			continue
 		}
 		e.fact(st, v, smt.Implies(smt.Is("obj", a), smt.BVUlt(Oid(a), st.Alloc)))
+	}
+}
+
+// dnfPaths expands a path condition into at most limit conjunctions of literals (nil if larger).
+func dnfPaths(t *smt.Term, limit int) [][]*smt.Term {
+	switch t.Op {
+	case "true":
+		return [][]*smt.Term{{}}
+	case "false":
+		return [][]*smt.Term{}
+	case "or":
+		var out [][]*smt.Term
+		for _, a := range t.Args {
+			d := dnfPaths(a, limit)
+			if d == nil {
+				return nil
+			}
+			out = append(out, d...)
+			if len(out) > limit {
+				return nil
+			}
+		}
+		return out
+	case "and":
+		out := [][]*smt.Term{{}}
+		for _, a := range t.Args {
+			d := dnfPaths(a, limit)
+			if d == nil {
+				return nil
+			}
+			var nxt [][]*smt.Term
+			for _, x := range out {
+				for _, y := range d {
+					c := append(append([]*smt.Term{}, x...), y...)
+					nxt = append(nxt, c)
+					if len(nxt) > limit {
+						return nil
+					}
+				}
+			}
+			out = nxt
+		}
+		return out
+	}
+	return [][]*smt.Term{{t}}
+}
+
+// iteConds collects the distinct selector conditions of ite terms inside t (DAG walk).
+func iteConds(t *smt.Term, limit int) []*smt.Term {
+	seen := map[int]bool{}
+	cs := map[int]*smt.Term{}
+	var order []*smt.Term
+	var walk func(t *smt.Term)
+	walk = func(t *smt.Term) {
+		if seen[t.ID] || len(order) > limit {
+			return
+		}
+		seen[t.ID] = true
+		if t.Op == "ite" && !t.Args[0].HasBound {
+			c := t.Args[0]
+			if _, ok := cs[c.ID]; !ok {
+				cs[c.ID] = c
+				order = append(order, c)
+			}
+		}
+		for _, a := range t.Args {
+			walk(a)
+		}
+	}
+	walk(t)
+	return order
+}
+
+// checkCaseSplit proves goal by cases on the selector conditions of merged (ite) values.
+func (e *Exec) checkCaseSplit(st *State, kind string, goal *smt.Term, label string, conds []*smt.Term) {
+	if st.Dead() || goal.IsTrue() || e.mute > 0 {
+		return
+	}
+	base := e.hyp(st)
+	n := len(conds)
+	for mask := 0; mask < 1<<uint(n); mask++ {
+		m := map[*smt.Term]*smt.Term{}
+		var lits []*smt.Term
+		for i, c := range conds {
+			if mask&(1<<uint(i)) != 0 {
+				m[c] = smt.True
+				lits = append(lits, c)
+			} else {
+				m[c] = smt.False
+				lits = append(lits, smt.Not(c))
+			}
+		}
+		// later conditions may contain earlier ones: substitute inside the literals as well
+		caseCond := smt.And(lits...)
+		if caseCond.IsFalse() {
+			continue
+		}
+		hyp := smt.And(smt.Subst(base, m), caseCond)
+		g := smt.Subst(goal, m)
+		if hyp.IsFalse() || g.IsTrue() {
+			continue
+		}
+		name := fmt.Sprintf("%s/%s:%s@case%d", e.curFunc, kind, label, mask)
+		o := &Obligation{Name: name, Kind: kind, Func: e.curFunc, Hyp: hyp, Goal: g,
+			Values: e.inputs, ValueNames: e.inputNames, Props: e.curProps}
+		e.Obls = append(e.Obls, o)
+	}
+	if !smt.HasQuant(goal) {
+		st.Assume(goal)
 	}
 }
